@@ -58,6 +58,9 @@ static Spec random_spec(Rng& r, long c, bool small) {
         double d = s.pqsize / (s.n - 1);
         s.e1 = r.logu(1e-5, 1e-2);
         if (s.e1 / (d * d) > 0.4) s.e1 = 0.4 * d * d;   // explicit scheme's stable range
+        // one case in six: diffusion numbers beyond the stable range (few steps per period on a fine mesh, e.g. -N 10): iterating such a
+        // map diverges, but a single application still hands out every cell's charge exactly once
+        if ((c / K_NKINDS) % 6 == 5) { s.e1 = std::min(0.05, r.uni(0.55, 1.8) * d * d); }
         break; }
     default: break;
     }
